@@ -516,7 +516,8 @@ func (h *HWorld) observe(spec ObsSpec) *HObs {
 //	"404" | "301 <location>" | "503-tls" | "503-stopped" | "held" | "proxy-200" | "fwd active|rollout"
 func (h *HWorld) predictCell(c Cell) (string, *MService, string) {
 	m := h.M
-	name, prefix := m.route(c.Host, c.Path)
+	pathOnly, _, _ := strings.Cut(c.Path, "?")
+	name, prefix := m.route(c.Host, pathOnly)
 	if name == "" {
 		return "404", nil, ""
 	}
@@ -543,7 +544,7 @@ func (h *HWorld) predictCell(c Cell) (string, *MService, string) {
 	if s.Opt == "hc" {
 		hp = "/health2"
 	}
-	isHealthGet := (c.Method == "" || c.Method == "GET") && c.Path == hp
+	isHealthGet := (c.Method == "" || c.Method == "GET") && pathOnly == hp
 	switch s.Gate {
 	case "stopped":
 		if isHealthGet {
@@ -629,7 +630,18 @@ func (h *HWorld) checkObs(prop string, o *HObs, clauses map[string]bool) []Viola
 			if !clauses[kind] {
 				continue
 			}
-			add(fmt.Sprintf("%s want=%s got=%s", kind, want, sigTrim(got)), fmt.Sprintf("%s: model expects %q, implementation gave %q (model: %s)", co.Cell, want, got, h.M.key()))
+			if kind == "tls-policy" && svc != nil && len(svc.Hosts) > 1 {
+				root := false
+				for _, p := range svc.Paths {
+					if p == "/" {
+						root = true
+					}
+				}
+				if !root && stripPort(co.Cell.Host) != svc.Hosts[0] {
+					kind = "tls-policy subpath-multihost-follows-first-host"
+				}
+			}
+			add(fmt.Sprintf("%s want=%s got=%s", kind, sigTrim(want), sigTrim(got)), fmt.Sprintf("%s: model expects %q, implementation gave %q (model: %s)", co.Cell, want, got, h.M.key()))
 			continue
 		}
 		// stop message
@@ -660,7 +672,7 @@ func (h *HWorld) checkObs(prop string, o *HObs, clauses map[string]bool) []Viola
 		if strings.HasPrefix(want, "fwd") && clauses["strip"] && r != nil {
 			if e, ok := reqTarget[r.ID]; ok {
 				exp := co.Cell.Path
-				if svc.Opt != "strip0" && prefix != "/" {
+				if svc.Opt != "strip0" && prefix != "/" && strings.HasPrefix(exp, prefix) {
 					exp = strings.TrimPrefix(exp, prefix)
 					if exp == "" {
 						exp = "/"
@@ -739,6 +751,9 @@ func (h *HWorld) checkObs(prop string, o *HObs, clauses map[string]bool) []Viola
 }
 
 func sigTrim(s string) string {
+	if strings.HasPrefix(s, "301 ") {
+		return "301"
+	}
 	if strings.HasPrefix(s, "foreign:") {
 		return "foreign"
 	}
